@@ -742,6 +742,103 @@ func c10ShowPath(p *Path) string {
 	return b.String()
 }
 
+// the same rendering computed from the EFFECTIVE attribute list GetPathAttrs() — what is serialised and
+// advertised — instead of the per-attribute accessors
+func c10ShowAttrs(p *Path) string {
+	by := map[bgp.BGPAttrType]bgp.PathAttributeInterface{}
+	for _, a := range p.GetPathAttrs() {
+		by[a.GetType()] = a
+	}
+	var b strings.Builder
+	if a, ok := by[bgp.BGP_ATTR_TYPE_ORIGIN]; ok {
+		fmt.Fprintf(&b, "o %d", a.(*bgp.PathAttributeOrigin).Value)
+	} else {
+		b.WriteString("o -")
+	}
+	if a, ok := by[bgp.BGP_ATTR_TYPE_AS_PATH]; ok {
+		ap := a.(*bgp.PathAttributeAsPath)
+		fmt.Fprintf(&b, " p %d", len(ap.Value))
+		for _, s := range ap.Value {
+			fmt.Fprintf(&b, " %d %d", s.GetType(), len(s.GetAS()))
+			for _, x := range s.GetAS() {
+				fmt.Fprintf(&b, " %d", x)
+			}
+		}
+	} else {
+		b.WriteString(" p 0")
+	}
+	nh := netip.Addr{}
+	if a, ok := by[bgp.BGP_ATTR_TYPE_NEXT_HOP]; ok {
+		nh = a.(*bgp.PathAttributeNextHop).Value
+	} else if a, ok := by[bgp.BGP_ATTR_TYPE_MP_REACH_NLRI]; ok {
+		nh = a.(*bgp.PathAttributeMpReachNLRI).Nexthop
+	}
+	switch {
+	case !nh.IsValid():
+		b.WriteString(" nh -")
+	case nh.Is6():
+		fmt.Fprintf(&b, " nh 6:%s", c10AddrNum(nh))
+	default:
+		fmt.Fprintf(&b, " nh 4:%s", c10AddrNum(nh))
+	}
+	if a, ok := by[bgp.BGP_ATTR_TYPE_MULTI_EXIT_DISC]; ok {
+		fmt.Fprintf(&b, " med %d", a.(*bgp.PathAttributeMultiExitDisc).Value)
+	} else {
+		b.WriteString(" med -")
+	}
+	if a, ok := by[bgp.BGP_ATTR_TYPE_LOCAL_PREF]; ok {
+		fmt.Fprintf(&b, " lp %d", a.(*bgp.PathAttributeLocalPref).Value)
+	} else {
+		b.WriteString(" lp -")
+	}
+	var cs []uint32
+	if a, ok := by[bgp.BGP_ATTR_TYPE_COMMUNITIES]; ok {
+		cs = a.(*bgp.PathAttributeCommunities).Value
+	}
+	fmt.Fprintf(&b, " c %d", len(cs))
+	for _, c := range cs {
+		fmt.Fprintf(&b, " %d", c)
+	}
+	var es []bgp.ExtendedCommunityInterface
+	if a, ok := by[bgp.BGP_ATTR_TYPE_EXTENDED_COMMUNITIES]; ok {
+		es = a.(*bgp.PathAttributeExtendedCommunities).Value
+	}
+	fmt.Fprintf(&b, " e %d", len(es))
+	for _, e := range es {
+		switch v := e.(type) {
+		case *bgp.TwoOctetAsSpecificExtended:
+			fmt.Fprintf(&b, " %s 0 %d %d %d", c10B(v.IsTransitive), v.SubType, v.AS, v.LocalAdmin)
+		case *bgp.IPv4AddressSpecificExtended:
+			a := v.IPv4.As4()
+			fmt.Fprintf(&b, " %s 1 %d %d %d", c10B(v.IsTransitive), v.SubType, uint32(a[0])<<24|uint32(a[1])<<16|uint32(a[2])<<8|uint32(a[3]), v.LocalAdmin)
+		default:
+			fmt.Fprintf(&b, " x%T", e)
+		}
+	}
+	var ls []*bgp.LargeCommunity
+	if a, ok := by[bgp.BGP_ATTR_TYPE_LARGE_COMMUNITY]; ok {
+		ls = a.(*bgp.PathAttributeLargeCommunities).Values
+	}
+	fmt.Fprintf(&b, " l %d", len(ls))
+	for _, l := range ls {
+		fmt.Fprintf(&b, " %d %d %d", l.ASN, l.LocalData1, l.LocalData2)
+	}
+	return b.String()
+}
+
+// the result of a policy is the effective attribute list: it must agree with the accessors
+func c10CheckEffective(o *vOut, res *Path, how string, rt *c10Route) {
+	if res == nil {
+		return
+	}
+	acc, eff := c10ShowPath(res), c10ShowAttrs(res)
+	o.stat("effective_attr_checks", 1)
+	if acc != eff {
+		o.fail("effective-attrs-differ-from-accessors:"+c10AttrClass(acc+" |", eff+" |"), map[string]any{"after": how, "route": c10RouteLine(rt),
+			"accessors": acc, "GetPathAttrs": eff})
+	}
+}
+
 // everything a peer would be sent for this path: canonical fields plus the wire form of every attribute
 func c10Snapshot(p *Path) string {
 	var b strings.Builder
@@ -1055,6 +1152,68 @@ func (g *c10Gen) newProg() *c10Prog {
 		}
 		p.pols = append(p.pols, pol)
 	}
+	if r.chance(35) {
+		// an attribute cleared by one statement and set again by a later one (and the reverse), in one
+		// policy or across two policies: deletions and settings at different depths of the clone chain
+		tag := r.intn(4) // 0 community 1 ext 2 large 3 med (set, then set again)
+		mk := func(op int, full bool) *c10Stmt {
+			st := &c10Stmt{id: g.nextSt, route: 0}
+			g.nextSt++
+			a := c10Act{tag: tag, op: op}
+			switch tag {
+			case 0:
+				if full {
+					a.comms = append([]uint32{}, c10Comms...)
+					if op == 0 {
+						a.comms = g.subsetU32(c10Comms, 2)
+						a.comms = append(a.comms, c10Comms[r.intn(len(c10Comms))])
+					}
+				}
+			case 1:
+				if full {
+					a.exts = append([]c10Ext{}, c10Exts[:5]...)
+					if op == 0 {
+						a.exts = []c10Ext{c10Exts[r.intn(5)]}
+					}
+				}
+			case 2:
+				if full {
+					a.larges = append([]c10Large{}, c10Larges...)
+					if op == 0 {
+						a.larges = []c10Large{c10Larges[r.intn(len(c10Larges))]}
+					}
+				}
+			case 3:
+				a = c10Act{tag: 3, replace: true, val: uint32(r.pick(7, 70))}
+			}
+			st.acts = []c10Act{a}
+			g.o.stat("act_type_"+fmt.Sprint(tag), 1)
+			return st
+		}
+		clear := mk(2, false) // replace with the empty list
+		if r.chance(40) && tag < 3 {
+			clear = mk(1, true) // remove every value of the pool
+		}
+		set := mk(0, true)
+		chain := []*c10Stmt{clear, set}
+		if r.chance(35) {
+			chain = []*c10Stmt{set, clear}
+		}
+		if r.chance(40) {
+			chain = append(chain, mk(0, true))
+		}
+		if r.chance(30) {
+			chain[len(chain)-1].route = 1
+		}
+		if len(p.pols) > 1 && r.chance(40) {
+			// across two policies
+			p.pols[0].stmts = append([]*c10Stmt{chain[0]}, p.pols[0].stmts...)
+			p.pols[1].stmts = append(append([]*c10Stmt{}, chain[1:]...), p.pols[1].stmts...)
+		} else {
+			p.pols[0].stmts = append(append([]*c10Stmt{}, chain...), p.pols[0].stmts...)
+		}
+		g.o.stat("clear_set_chains", 1)
+	}
 	slot := 0
 	for _, id := range c10PeerIDs {
 		for _, dir := range []PolicyDirection{POLICY_DIRECTION_IMPORT, POLICY_DIRECTION_EXPORT} {
@@ -1069,6 +1228,14 @@ func (g *c10Gen) newProg() *c10Prog {
 		}
 	}
 	return p
+}
+
+var c10Global = &oc.Global{Config: oc.GlobalConfig{As: 65000, RouterId: netip.MustParseAddr("10.255.0.1")}}
+
+var c10ExportPeers = []*PeerInfo{
+	{PeerType: oc.PEER_TYPE_EXTERNAL, AS: 65009, LocalAS: 65000, Address: netip.MustParseAddr("10.0.9.1"), LocalAddress: netip.MustParseAddr("10.0.9.254"), ID: netip.MustParseAddr("9.9.9.9")},
+	{PeerType: oc.PEER_TYPE_INTERNAL, AS: 65000, LocalAS: 65000, Address: netip.MustParseAddr("10.0.9.2"), LocalAddress: netip.MustParseAddr("10.0.9.254"), ID: netip.MustParseAddr("9.9.9.8")},
+	{PeerType: oc.PEER_TYPE_EXTERNAL, AS: 65009, LocalAS: 65000, Address: netip.MustParseAddr("2001:db8:9::1"), LocalAddress: netip.MustParseAddr("2001:db8:9::fe"), ID: netip.MustParseAddr("9.9.9.7")},
 }
 
 var c10Sources = []*PeerInfo{
@@ -1414,6 +1581,17 @@ func c10RunProgram(t *testing.T, o *vOut, g *c10Gen, p *c10Prog, routes []*c10Ro
 			}
 			res, s := c10Apply(rp, a.id, a.dir, stored, y.options())
 			o.ask(s, "eval %d %d %d", a.slot, rt.id, y.id)
+			c10CheckEffective(o, res, fmt.Sprintf("ApplyPolicy %s/%s", a.id, a.dir), rt)
+			if a.dir == POLICY_DIRECTION_EXPORT && g.r.chance(35) && !rt.withdraw {
+				// the export chain: UpdatePathAttrs toward an eBGP / iBGP peer (which deletes MED, LOCAL_PREF,
+				// rewrites the next hop in a clone), then the export policy on top of that clone
+				info := c10ExportPeers[g.r.intn(len(c10ExportPeers))]
+				pre := UpdatePathAttrs(slog.New(slog.NewTextHandler(discardWriter{}, nil)), c10Global, info, stored)
+				c10CheckEffective(o, pre, "UpdatePathAttrs toward "+info.Address.String(), rt)
+				res2, _ := c10Apply(rp, a.id, a.dir, pre, &PolicyOptions{Info: info, OldNextHop: stored.GetNexthop()})
+				c10CheckEffective(o, res2, "UpdatePathAttrs toward "+info.Address.String()+" + export policy", rt)
+				o.stat("export_chain_checks", 1)
+			}
 			if wf {
 				// the documented-model interpreter of the Lean side must give the same answer
 				o.ask(s, "spec %d %d %d", a.slot, rt.id, y.id)
